@@ -72,6 +72,7 @@ type Worker struct {
 	m          *Machine
 	lim        Limits
 	wantSample bool
+	restarts   int
 	sample     *PathSample
 }
 
@@ -200,12 +201,14 @@ func (w *Worker) runDriver(spec *DriverSpec) (res DriverResult) {
 	t0 := time.Now()
 	res.Name = spec.Name
 	res.Aborted = map[string]int{}
+	w.restarts = 0
 	m.sol.Reset()
 	m.tt = NewTermTable()
 	q0, s0, u0, k0, st0 := m.sol.Queries, m.sol.NSat, m.sol.NUnsat, m.sol.NUnknown, m.sol.Time
 	m.branches, m.assertsProved, m.logQueries = 0, 0, 0
 	shapes := map[string]bool{}
 	work := [][]int{nil}
+	m.deadline = t0.Add(w.lim.Wall)
 	defer func() {
 		if r := recover(); r != nil {
 			res.Status = "undecided"
@@ -229,6 +232,25 @@ func (w *Worker) runDriver(spec *DriverSpec) (res DriverResult) {
 			res.Aborted["wall-budget"]++
 			res.AbortMsgs = append(res.AbortMsgs, "driver wall-clock budget exceeded")
 			break
+		}
+		if m.sol.Dead {
+			// the watchdog killed the solver: start a fresh one (all definitions are re-sent lazily)
+			old := m.sol
+			old.Close()
+			ns, err := NewSolver(old.kind, nil)
+			if err != nil {
+				res.Aborted["solver-restart-failed"]++
+				break
+			}
+			ns.QueryTimeout = old.QueryTimeout
+			ns.Queries, ns.NSat, ns.NUnsat, ns.NUnknown, ns.Time, ns.Timeouts = old.Queries, old.NSat, old.NUnsat, old.NUnknown, old.Time, old.Timeouts
+			m.sol = ns
+			w.restarts++
+			if w.restarts > 3 {
+				res.Aborted["solver-timeout"]++
+				res.AbortMsgs = append(res.AbortMsgs, "too many solver restarts; remaining paths not explored")
+				break
+			}
 		}
 		prefix := work[len(work)-1]
 		work = work[:len(work)-1]
